@@ -150,10 +150,13 @@ def check(ctx, tab, opts, p=None, workload="gen", which=None):
         how = ctx.rng.choice(["stream-fails", "abandoned", "refused"])
         ctx.hit("printed-again-after:" + how)
         wit["earlier_on_the_same_object"] = how
+        base_kw = {k_: v_ for k_, v_ in kw.items() if k_ not in ("normalize", "scale")}
+        kw_first = ctx.rng.choice([kw, {**base_kw, "normalize": True}, {**base_kw, "scale": 0.25}, base_kw])     # (not necessarily the options of the print that follows)
+        wit["earlier_options"] = {k_: v_ for k_, v_ in kw_first.items()}
         try:
             if how == "stream-fails":
                 with contextlib.redirect_stdout(_FailingStream(ctx.rng.randint(0, 6))):
-                    p.print_decay_modes(mother, **kw)
+                    p.print_decay_modes(mother, **kw_first)
             elif how == "abandoned":
                 from .. import trace  # noqa: PLC0415
 
@@ -161,7 +164,7 @@ def check(ctx, tab, opts, p=None, workload="gen", which=None):
 
                 def quiet():
                     with contextlib.redirect_stdout(io.StringIO()):
-                        p.print_decay_modes(mother, **kw)
+                        p.print_decay_modes(mother, **kw_first)
 
                 _, n = fp.count(lambda: _swallow(quiet))
                 fp.inject(ctx.rng.randint(1, max(1, n)), lambda: _swallow(quiet))
